@@ -261,6 +261,7 @@ def check_analysis(o, spec, res, tag=""):
             ones = all(isinstance(v, float) and v == 1.0 for _, _, vals in tab["rows"] for v in vals)
             cm = COLMAP[loc]
             ge_one = all(eval_cell(vals[cm[j]], dts[j]) >= 1.0 for _, _, vals in tab["rows"] for j in range(len(cm)))
+            scale = max(scale, max(abs(x) for x in ref))     # (expressions such as 1 + a/dT are huge at tiny rises)
             for j in range(NTERMS[loc]):
                 worst = max(worst, abs(arr[k, j] - ref[j]) / scale)
                 o.check(close(arr[k, j], ref[j], scale), "differs_from_reference" + tag,
